@@ -3,6 +3,8 @@ from engine.anl.casts import const_value
 from engine.anl.origin import fmt, subterms, strip_bb
 from .common import S, co, calls_norm, is_call_term, var_name, render_path, spawned_children
 
+from .common import ok_return_blocks as _okret
+
 EXPLANATION = (
     "Static decision of the SOCKS5 front-end's control structure: (R16.1) both parsers reject a version byte other than 5 before anything "
     "else; the method selection [5,0] is written on the true edge of methods.contains(NO_AUTH) and [5,0xFF] plus an error on the false edge; "
@@ -53,7 +55,7 @@ def r1_negotiation(ctx):
     oka = a is not None and bool(t_e) and all(cfg.edges_dominate(t_e, b_) for b_ in chosen.get(0, [a.bb]))
     ctx.ob("R16.1", "authenticate:no-auth-selected-iff-offered", oka, a.site if a else "", "[5,0] is written on the true edge of methods.contains(0)" if oka else "'no authentication' can be selected although it was not offered (or is never selected)")
     okr = r is not None and bool(f_e) and all(cfg.edges_dominate(f_e, b_) for b_ in chosen.get(255, [r.bb]))
-    ok_rets = [bi for kind, bi, si, rv in body.defs().get(0, []) if kind == "assign" and rv["r"] == "aggregate" and rv["kind"].get("variant") == "Ok"]
+    ok_rets = _okret(body, ctx.origins(body))
     # what can follow a 'not offered' outcome: the same (immutable) test evaluated again later takes the same side
     refuse_region = cfg.reach([e[1] for e in f_e], avoid_edges=t_e)
     okr = okr and not [b for b in ok_rets if b in refuse_region]
